@@ -57,30 +57,27 @@ pub open spec fn remove_ops(id: Scru128Id, f: &Frame) -> Seq<Op> {
     seq![Op::Remove(Part::Stream, id_bytes(id)), Op::Remove(Part::IdxTopic, fkey(f)), Op::Remove(Part::IdxCtx, fckey(f))]
 }
 
-// key functions: contracts proved on the real code in unit `keys`; here they are assumed (modular)
+// key functions: contracts proved on the real code in unit `keys`; here they are assumed (modular). The contract text is the SAME
+// file in both places (`_spec_key_*.rs`: included with its obligation tags in `keys`, without them here)
 #[verifier::external_body]
 pub fn idx_topic_key_from_frame(frame: &Frame) -> (r: Result<Vec<u8>, Error>)
-    requires topic_bytes(frame).len() <= MAX_TOPIC(),
-    ensures r.is_ok() <==> nul_free(topic_bytes(frame)),
-        r.is_ok() ==> r.unwrap()@ == fkey(frame),
+//@@include_notags _spec_key_from_frame.rs
 { unimplemented!() }
 #[verifier::external_body]
 pub fn idx_topic_key_prefix(context_id: Scru128Id, topic: &str) -> (v: Vec<u8>)
-    requires topic.spec_bytes().len() <= MAX_TOPIC(),
-    ensures v@ == topic_prefix(id_u128(context_id), topic.spec_bytes()),
+//@@include_notags _spec_key_prefix.rs
 { unimplemented!() }
 #[verifier::external_body]
 pub fn idx_topic_frame_id_from_key(key: &[u8]) -> (r: Scru128Id)
-    requires key@.len() >= 16,
-    ensures id_bytes(r) == key@.subrange(key@.len() - 16, key@.len() as int),
+//@@include_notags _spec_key_id_from_key.rs
 { unimplemented!() }
 #[verifier::external_body]
 pub fn idx_context_key_range_end(context_id: Scru128Id) -> (v: Vec<u8>)
-    ensures id_u128(context_id) < u128::MAX ==> v@ == be16((id_u128(context_id) + 1) as u128),
+//@@include_notags _spec_key_range_end.rs
 { unimplemented!() }
 #[verifier::external_body]
 pub fn idx_context_key_from_frame(frame: &Frame) -> (v: Vec<u8>)
-    ensures v@ == fckey(frame),
+//@@include_notags _spec_key_ctx_key.rs
 { unimplemented!() }
 
 pub assume_specification<'a> [<String as PartialEq<&'a str>>::eq] (a: &String, b: &&str) -> (r: bool)
